@@ -10,6 +10,8 @@ import (
 // C05 — cancellation stops runs and flows and is reported as such.
 
 type c05Mon struct {
+	kind      int // node kind of every probe of the run: 0 struct node on BaseNode, 1 plain Node (no retry settings, no fallback), 2 function-style node
+	kindSet   bool
 	ctx       *vRunCtx
 	cancelled bool
 	calls     int
@@ -31,6 +33,16 @@ type c05Probe struct {
 	budget  int
 	execs   int
 	hasSucc bool
+	node    Node // what is run / connected: the probe itself or a wrapper of another node kind
+}
+
+// a Node implemented from scratch: no BaseNode, hence no retry settings and no fallback
+type c05Plain struct{ p *c05Probe }
+
+func (n c05Plain) Prep(ctx context.Context, s *SharedStore) (any, error) { return n.p.Prep(ctx, s) }
+func (n c05Plain) Exec(ctx context.Context, v any) (any, error)          { return n.p.Exec(ctx, v) }
+func (n c05Plain) Post(ctx context.Context, s *SharedStore, v, e any) (Action, error) {
+	return n.p.Post(ctx, s, v, e)
 }
 
 func (n *c05Probe) Prep(ctx context.Context, s *SharedStore) (any, error) {
@@ -55,7 +67,7 @@ func (n *c05Probe) Exec(ctx context.Context, p any) (any, error) {
 	n.execs++
 	was := n.m.cancelled
 	if vNondet[bool]("execFail") {
-		n.m.lastEnds = false // a retry or the fallback follows
+		n.m.lastEnds = n.m.kind == 1 // a retry or the fallback follows (a plain node has neither: its failure ends the path)
 		n.m.maybeCancel()
 		if n.m.cancelled && !was {
 			if n.execs < n.budget {
@@ -111,7 +123,26 @@ func c05NewProbe(m *c05Mon, hasSucc bool) *c05Probe {
 	maxN := vParam("N", 2)
 	N := vNondet[int]("N")
 	vAssume(1 <= N && N <= maxN)
-	return &c05Probe{BaseNode: NewBaseNode(WithMaxRetries(N), WithWait(0)), m: m, budget: N, hasSucc: hasSucc}
+	if !m.kindSet {
+		m.kind, m.kindSet = vChoice("nodeKind", 3), true
+	}
+	p := &c05Probe{BaseNode: NewBaseNode(WithMaxRetries(N), WithWait(0)), m: m, budget: N, hasSucc: hasSucc}
+	switch m.kind {
+	case 0:
+		p.node = p
+	case 1:
+		vCover("plain-node-kind")
+		vAssume(N == 1)
+		p.node = c05Plain{p}
+	default:
+		vCover("function-style-node-kind")
+		p.node = NewNode(WithMaxRetries(N),
+			WithPrepFuncAny(func(ctx context.Context, s *SharedStore) (any, error) { return p.Prep(ctx, s) }),
+			WithExecFuncAny(func(ctx context.Context, v any) (any, error) { return p.Exec(ctx, v) }),
+			WithExecFallbackFunc(p.ExecFallback),
+			WithPostFuncAny(func(ctx context.Context, s *SharedStore, v, e any) (Action, error) { return p.Post(ctx, s, v, e) }))
+	}
+	return p
 }
 
 func (m *c05Mon) finish(err error) {
@@ -142,7 +173,7 @@ func VH_C05_single() {
 	vUnwind(6)
 	m := &c05Mon{ctx: vNewRunCtx("run")}
 	n := c05NewProbe(m, false)
-	_, err := Run(m.ctx, n, NewSharedStore())
+	_, err := Run(m.ctx, n.node, NewSharedStore())
 	m.finish(err)
 }
 
@@ -154,9 +185,9 @@ func VH_C05_linear() {
 	for i := range nodes {
 		nodes[i] = c05NewProbe(m, i+1 < k)
 	}
-	flow := NewFlow(nodes[0])
+	flow := NewFlow(nodes[0].node)
 	for i := 0; i+1 < k; i++ {
-		flow.Connect(nodes[i], "next", nodes[i+1])
+		flow.Connect(nodes[i].node, "next", nodes[i+1].node)
 	}
 	err := flow.Run(m.ctx, NewSharedStore())
 	m.finish(err)
@@ -170,11 +201,11 @@ func VH_C05_nested() {
 	a := c05NewProbe(m, true)
 	b := c05NewProbe(m, true)
 	p3 := c05NewProbe(m, false)
-	inner := NewFlow(a)
-	inner.Connect(a, "next", b)
-	outer := NewFlow(p0)
-	outer.Connect(p0, "next", inner)
-	outer.Connect(inner, "next", p3)
+	inner := NewFlow(a.node)
+	inner.Connect(a.node, "next", b.node)
+	outer := NewFlow(p0.node)
+	outer.Connect(p0.node, "next", inner)
+	outer.Connect(inner, "next", p3.node)
 	err := outer.Run(m.ctx, NewSharedStore())
 	if m.cancelled && a.execs > 0 && p3.execs == 0 && !m.lastEnds {
 		vCover("cancel-inside-inner-flow")
@@ -192,16 +223,16 @@ func VH_C05_predone() {
 	var err error
 	switch which {
 	case 0:
-		_, err = Run(m.ctx, c05NewProbe(m, false), NewSharedStore())
+		_, err = Run(m.ctx, c05NewProbe(m, false).node, NewSharedStore())
 	case 1:
 		a := c05NewProbe(m, true)
 		b := c05NewProbe(m, false)
-		f := NewFlow(a)
-		f.Connect(a, "next", b)
+		f := NewFlow(a.node)
+		f.Connect(a.node, "next", b.node)
 		err = f.Run(m.ctx, NewSharedStore())
 	default:
 		a := c05NewProbe(m, false)
-		inner := NewFlow(a)
+		inner := NewFlow(a.node)
 		outer := NewFlow(inner)
 		err = outer.Run(m.ctx, NewSharedStore())
 	}
